@@ -20,7 +20,7 @@ open Aqv Aqv.Rlp
 inductive Err where
   | tooSmall | emptySigdata | badHash | badSig | unknownType | rlp      -- discovery
   | eof | badHeaderMAC | badFrameMAC | plainTooLarge | sizeOverflow | snappy | msgCode   -- rlpx frames
-  | sizeUnderflow | decrypt                                             -- handshake
+  | sizeUnderflow | decrypt | badRemoteID | ecdh                        -- handshake
   | msgTooLarge | extraStatus | decode | invalidCode | discRequested   -- handlers
   deriving Repr, DecidableEq, Inhabited
 
@@ -669,5 +669,56 @@ def readProtoHandshake (decodes : Bytes → Bool) (m : Msg) : Out Unit :=
   else if m.code = 1 then .err .discRequested
   else if m.code ≠ 0 then .err .invalidCode
   else if decodes (m.payload.take m.size) then .ok () else .err .decode
+
+/-! ## Identity validation and the responder side of the encryption handshake (`handleAuthMsg`)
+
+`NodeID.Pubkey()` is the only validation of the static key an initiator claims (p2p/rlpx.go handleAuthMsg) and of the
+keys of nodes learned from the network (p2p/discover/node.go validateComplete): the 64 bytes must be the affine
+coordinates of a point of secp256k1. -/
+
+def secpP : Nat := 2 ^ 256 - 2 ^ 32 - 977
+
+/-- the curve equation y² = x³ + 7 over GF(P), on the two big-endian halves of the identity. btcec reduces the
+    coordinates modulo P before testing them (an identity `x + P` names the same point as `x`). -/
+def idOnCurve (id : Bytes) : Bool :=
+  let x := beNat (id.take 32) % secpP
+  let y := beNat (id.drop 32) % secpP
+  id.length == 64 && (y * y) % secpP == (x * x * x + 7) % secpP
+
+/-- the decoded `authMsgV4` -/
+structure AuthMsg where
+  sig : Bytes
+  pub : Bytes
+  nonce : Bytes
+  deriving Repr, DecidableEq
+
+/-- primitives of the responder: identity validation, ECDH with the claimed static key, public-key recovery. -/
+structure AuthPrims where
+  validID : Bytes → Bool                       -- `h.remoteID.Pubkey()` succeeds
+  ecdh : Bytes → Option Bytes                 -- `staticSharedSecret(prv)` against the claimed key (32 bytes)
+  recover : Bytes → Bytes → Option Bytes      -- `crypto.Ecrecover(signedMsg, sig)`: the initiator's ephemeral key
+
+/-- what the responder keeps and derives its session secrets from. -/
+structure AuthResult where
+  remoteID : Bytes
+  token : Bytes
+  remoteEph : Bytes
+  initNonce : Bytes
+  deriving Repr, DecidableEq
+
+/-- `encHandshake.handleAuthMsg(msg, prv)` (the random ephemeral key generation cannot fail on input). -/
+def handleAuthMsg (P : AuthPrims) (m : AuthMsg) : Out AuthResult :=
+  if !P.validID m.pub then .err .badRemoteID
+  else
+    match P.ecdh m.pub with
+    | none => .err .ecdh
+    | some token =>
+      match xorInto token m.nonce 0 with          -- xor(token, h.initNonce): other[i] for i < len(one)
+      | .err e => .err e
+      | .panic p => .panic p
+      | .ok signed =>
+        match P.recover signed m.sig with
+        | none => .err .badSig
+        | some eph => .ok { remoteID := m.pub, token := token, remoteEph := eph, initNonce := m.nonce }
 
 end Aqv.Net
